@@ -3,7 +3,7 @@ C25 helper lemmas, part 5: restart with raft replay, the invariant along a whole
 the drain lemma (a leader with a working endpoint empties everything it can emit).
 -/
 import RqModel.Lemmas.Cdc4
-namespace RqModel.Cdc
+namespace RqModel.CdcPipe
 open RqModel.Fifo
 
 /-! ### restart -/
@@ -274,4 +274,4 @@ theorem top_init (b : Nat) (hb : 0 < b) : Top { batchSz := b } := by
   · simp
   · simp [lastIdx]
 
-end RqModel.Cdc
+end RqModel.CdcPipe
